@@ -79,14 +79,18 @@ def run(R):
         R.saw(nw)
         wr = nw.calls(name='with_root_certificates')
         R.check(len(wr) == 1, 'C15.R2', 'with_root_certificates', site(nw), 'with_root_certificates sites: %d' % len(wr))
+        # the store handed to with_root_certificates is the one RootCertStore::from_iter(..) made here (possibly returned by a helper
+        # through Ok(..)?), and everything added to that store counts as a source
+        is_init = lambda x: is_call(x, name='from_iter') and 'RootCertStore' in (x[1] or '') + str(x[4].get('self_ty') or '')
         roots_local = mirlib.named_root(nw, wr[0][1]['args'][1]) if wr else None
-        R.check(roots_local is not None and nw.name_of(roots_local) == 'roots', 'C15.R2', 'roots-variable', site(nw), 'root store variable: %s' % (nw.name_of(roots_local) if roots_local is not None else None))
+        given = nw.origin(wr[0][1]['args'][1]) if wr else None
+        R.check(given is not None and term_contains(given, is_init), 'C15.R2', 'roots-variable', site(nw), 'root store handed to with_root_certificates: %s' % (show(given)[:100] if given is not None else None))
         srcs = []
         for bb, t in nw.calls():
             if t.get('name') in ('from_iter', 'add_parsable_certificates', 'extend', 'add', 'add_trust_anchors', 'push') and t['args']:
                 if t.get('name') == 'from_iter' and 'RootCertStore' in (t.get('fn') or '') + (t.get('self_ty') or ''):
                     srcs.append(('init', show(nw.origin(t['args'][0]))[:80], bb))
-                elif mirlib.named_root(nw, t['args'][0]) == roots_local and roots_local is not None:
+                elif (mirlib.named_root(nw, t['args'][0]) == roots_local and roots_local is not None) or is_init(strip_refs(nw.origin(t['args'][0]))):
                     srcs.append((t['name'], show(nw.origin(t['args'][1]))[:120], bb))
         allowed = lambda s: ('trust_anchors' in s) or ('ca_certs' in s or 'cert' in s and 'convert_certificate_to_pki_types' in s) or 'load_native_certs' in s or 'TLS_SERVER_ROOTS' in s or 'certs' in s
         for kind, s, bb in srcs:
@@ -332,7 +336,25 @@ def run(R):
         ac = tonic.body('server::service::tls::TlsAcceptor::accept::{closure#0}')
         R.saw(ac)
         ra = [(bb, t) for bb, t in ac.calls(name='accept') if 'tokio_rustls' in (t.get('fn') or '')]
-        R.check(len(ra) == 1 and term_contains(ac.origin(ra[0][1]['args'][0]), lambda x: is_call(x, name='from')) and mentions_field(ac.origin(ra[0][1]['args'][0]), 'inner'), 'C15.R6', 'accept-with-own-config', site(ac), 'RustlsAcceptor::from(self.inner).accept(io)')
+        # the handshake runs against the acceptor's own configuration: the receiver of tokio_rustls' accept is (made from) a field of self,
+        # and TlsAcceptor::new stores in that field (an acceptor made from) the ServerConfig it built
+        okown = False
+        if len(ra) == 1:
+            recv = resolve_env(tonic, ac, ac.origin(ra[0][1]['args'][0]))
+            tadt = tonic.adt('server::service::tls::TlsAcceptor')['variants'][0]['fields']
+            used = [f_ for f_ in tadt if mentions_field(recv, f_['n'])]
+            tn = tonic.body('server::service::tls::TlsAcceptor::new')
+            if len(used) == 1 and arg_root(strip_refs(find_terms(recv, lambda x: x and x[0] == 'field' and x[2] == used[0]['n'])[0])) == 1:
+                f_ = used[0]
+                made_here = term_contains(recv, lambda x: is_call(x, name='from') and 'tokio_rustls::TlsAcceptor' in x[1])
+                shape = (made_here and 'ServerConfig' in f_['ty']) or (not made_here and 'tokio_rustls::TlsAcceptor' in f_['ty'])
+                stored = []
+                for bb_, i_, p_, a_, ops_ in mirlib.aggregates(tn):
+                    if (a_.get('adt') or '').endswith('server::service::tls::TlsAcceptor') and f_['n'] in (a_.get('fields') or []):
+                        stored.append(tn.origin(ops_[a_['fields'].index(f_['n'])]))
+                built = lambda t_: term_contains(t_, lambda x: is_call(x) and x[3] in ('with_single_cert', 'with_cert_resolver'))
+                okown = bool(shape and stored and all(built(t_) and ('ServerConfig' in f_['ty'] or term_contains(t_, lambda x: is_call(x, name='from') and 'tokio_rustls::TlsAcceptor' in x[1])) for t_ in stored))
+        R.check(okown, 'C15.R6', 'accept-with-own-config', site(ac), 'RustlsAcceptor::from(self.inner).accept(io), or self.acceptor.accept(io) with the acceptor made from the built config in new()')
         # Server::serve_with wires the acceptor from the tls config
         st = [1 for bd in tonic.bodies for bb, t in bd.calls(name='tls_acceptor')]
         R.check(len(st) >= 1, 'C15.R6', 'acceptor-built-from-config', '', 'ServerTlsConfig::tls_acceptor call sites: %d' % len(st))
